@@ -484,3 +484,20 @@ MANIFEST_TEXT["C19"] = dict(
          "(Orswot, Map at any depth) – known defect recorded with kernel-checked witnesses –; persistence steps anywhere in a derivation do not change the derivable states. Model tied to the crate by byte-level comparison of the JSON text "
          "at random points of histories of all types and on the crate's pinned test vectors.",
     note=NOTE, technique="Lean 4 proof (compositional codec laws) + differential correspondence check (byte-level JSON)", design_ref="DESIGN.md §7 C19")
+
+# --------------------------------------------------------------------------------------------
+# later additions: GList representation system, executable Orswot spec proved sound, Map theorems in C07/C20
+# --------------------------------------------------------------------------------------------
+PROPS["C01"]["required_theorems"] += ["Crdt.C01.glist"]
+PROPS["C02"]["required_theorems"] += ["Crdt.C02.glist_laws"]
+PROPS["C03"]["required_theorems"] += ["Crdt.C03.glist"]
+PROPS["C09"]["required_theorems"] += ["Crdt.C09.glist_duplicate", "Crdt.C09.glist_stale"]
+for _pid in ("C02", "C03", "C09"):
+    PROPS[_pid]["profiles"] = PROPS[_pid]["profiles"] + [dict(name="glist_hist", quick=400, thorough=8000)]
+PROPS["C04"]["required_theorems"] += ["Crdt.C04.state_eq_spec", "Crdt.OrswotSpec.rep_specState", "Crdt.OrswotSpec.eq_specState"]
+PROPS["C05"]["required_theorems"] += ["Crdt.C05.keys_eq_spec"]
+PROPS["C07"]["required_theorems"] += ["Crdt.C07.map_add_clock_covers", "Crdt.C07.map_get_rm_clock", "Crdt.C07.map_rm_clock_le_add_clock", "Crdt.C07.map_derived_dot_fresh",
+                                       "Crdt.C05.add_clock_entry_points"]
+PROPS["C07"]["statement_coverage"] = "proved for every read entry point of top-level Orswot (read, read_ctx, contains, iter), MVReg (read, read_ctx) and Map (get, keys, values, iter, len, is_empty, read_ctx; any value type)"
+PROPS["C20"]["required_theorems"] += ["Crdt.C20.map_no_pending_residue", "Crdt.C20.map_no_empty_entry"]
+PROPS["C16"]["explanation"] += " List: the driver prints the verdict predicted from the knowledge set (clock = per-actor newest known dot, C12.state_eq_spec) and the implementation is compared with it."
